@@ -130,7 +130,7 @@ func c10GenDebounce(r *hx.Rand, long bool) c10Input {
 			add(c10Op{Op: "adv", D: c10Adv(r, iv)})
 		case x < 16 && nsub < 4:
 			p := r.Chance(2, 3)
-			add(c10Op{Op: "sub", P: p})
+			add(c10Op{Op: "sub", P: p, C: r.Chance(1, 6)})
 			prompt = append(prompt, p)
 			nsub++
 		case x < 17 && nsub > 0:
@@ -400,6 +400,62 @@ func c10Gen(ctx *core.Ctx) {
 			in.Ops = append(in.Ops, c10Op{Op: "close"})
 		}
 		c10Must(ctx, in, "churn")
+	}
+
+	// --- degenerate: Subscribe with a context that has already ended / that ends while the call is
+	// still waiting for the lock; on an idle open batcher, among other subscribers, while a
+	// delivery is blocked, after Close
+	for i := 0; i < 40*scale; i++ {
+		iv := []int{2, 5}[r.Intn(2)]
+		in := c10Input{Interval: iv}
+		switch i % 5 {
+		case 0: // idle, alone
+			in.Ops = append(in.Ops, c10Op{Op: "sub", P: r.Chance(2, 3), C: true}, c10Op{Op: "batch", K: 0},
+				c10Op{Op: "adv", D: iv})
+			if r.Bool() {
+				in.Ops = append(in.Ops, c10Op{Op: "readall", I: 0})
+			}
+		case 1: // among others, values before and after
+			in.Ops = append(in.Ops, c10Op{Op: "sub", P: true}, c10Op{Op: "batch", K: 0}, c10Op{Op: "adv", D: iv},
+				c10Op{Op: "sub", P: r.Bool(), C: true}, c10Op{Op: "sub", P: true}, c10Op{Op: "batch", K: 1},
+				c10Op{Op: "adv", D: iv}, c10Op{Op: "readall", I: 1})
+		case 2: // while a delivery is blocked: the call waits for the lock with its context ended
+			b, st, _ := c10StallBase(iv, r.Intn(4), 52)
+			in = b
+			n := 0
+			for _, op := range c10Expand(b).Ops {
+				if op.Op == "sub" {
+					n++
+				}
+			}
+			in.Ops = append(in.Ops, c10Op{Op: "sub", P: true, C: true})
+			if r.Bool() {
+				in.Ops = append(in.Ops, c10Op{Op: "adv", D: iv})
+			}
+			in.Ops = append(in.Ops, []c10Op{{Op: "cancel", I: st}, {Op: "readall", I: st}}[r.Intn(2)],
+				c10Op{Op: "batch", K: 700}, c10Op{Op: "adv", D: iv})
+			_ = n
+		case 3: // the context ends while Subscribe is waiting for the lock
+			b, st, _ := c10StallBase(iv, r.Intn(4), 52)
+			in = b
+			n := 0
+			for _, op := range b.Ops {
+				if op.Op == "sub" {
+					n++
+				}
+			}
+			in.Ops = append(in.Ops, c10Op{Op: "sub", P: true}, c10Op{Op: "cancel", I: n})
+			in.Ops = append(in.Ops, []c10Op{{Op: "cancel", I: st}, {Op: "readall", I: st}}[r.Intn(2)],
+				c10Op{Op: "batch", K: 700}, c10Op{Op: "adv", D: iv})
+		default: // around Close: before it (must be closed), after it (silently dropped)
+			in.Ops = append(in.Ops, c10Op{Op: "sub", P: true}, c10Op{Op: "sub", P: true, C: true},
+				c10Op{Op: "batch", K: 0}, c10Op{Op: "adv", D: iv}, c10Op{Op: "close"},
+				c10Op{Op: "sub", P: true, C: true}, c10Op{Op: "adv", D: iv})
+		}
+		if i%5 != 4 && r.Chance(2, 3) {
+			in.Ops = append(in.Ops, c10Op{Op: "close"})
+		}
+		c10Must(ctx, in, "degenerate")
 	}
 
 	// --- closes: Close called several times, overlapping or one after the other -----------------
